@@ -13,7 +13,8 @@ EXTENDS Naturals, Sequences, FiniteSets, Json, TLC
 
 CONSTANT TraceFile
 
-Tags == {"none", "ren", "typeOnly", "rensub", "typeOnlysub", "subeq"}      \* subeq: ",typeOnly,subtype=k=v" (a subtype containing "=")
+Tags == {"none", "ren", "typeOnly", "rensub", "typeOnlysub", "subeq", "subup"}
+\* subeq: ",typeOnly,subtype=k=v" (a subtype containing "=");  subup: "Ren,subtype=Foo" (names are lower-cased, subtypes are not)
 Fld(n, t, g) == [fname |-> n, ftype |-> t, tag |-> g]
 NoSide == [kind |-> "none", ptr |-> 0, types |-> <<>>, fields |-> <<>>]
 PosSide(ts) == [kind |-> "pos", ptr |-> 0, types |-> ts, fields |-> <<>>]
@@ -29,14 +30,18 @@ SimpleSides == {NoSide, PosSide(<<"T2">>), StructSide(0, <<Fld("Alpha", "T1", "n
 Descs == { [inp |-> i, out |-> o, errpos |-> e, special |-> ""] : i \in Sides, o \in SimpleSides, e \in {"none", "final"} }
          \cup { [inp |-> i, out |-> o, errpos |-> e, special |-> ""] : i \in SimpleSides, o \in Sides, e \in {"none", "final"} }
          \cup { [inp |-> NoSide, out |-> PosSide(ts), errpos |-> "middle", special |-> ""] : ts \in {<<"T1", "T2">>, <<"T2", "T1">>, <<"T1", "T1">>} }
-         \cup { [inp |-> i, out |-> NoSide, errpos |-> "none", special |-> s] : i \in {StructSide(0, <<Fld("Alpha", "T1", "none")>>), StructSide(1, <<Fld("BETA", "T2", "ren")>>)}, s \in {"mixedin", "mixedout"} }
-         \cup { [inp |-> NoSide, out |-> NoSide, errpos |-> "none", special |-> s] : s \in {"nonfunc", "nil", "S1", "S2", "S3", "S4"} }
+         \* a marker struct mixed with another parameter / result, the struct first ("mixedin", "mixedout") or last ("...2")
+         \cup { [inp |-> i, out |-> NoSide, errpos |-> e, special |-> s] : i \in {StructSide(0, <<Fld("Alpha", "T1", "none")>>), StructSide(1, <<Fld("BETA", "T2", "ren")>>)},
+                                                                          s \in {"mixedin", "mixedout", "mixedin2", "mixedout2"}, e \in {"none", "final"} }
+         \* a variadic final parameter is a parameter of the slice type
+         \cup { [inp |-> PosSide(ts), out |-> o, errpos |-> "none", special |-> "variadic"] : ts \in {<<"T1">>, <<"T2", "T1">>, <<"T1", "T1">>}, o \in {NoSide, PosSide(<<"T2">>)} }
+         \cup { [inp |-> NoSide, out |-> NoSide, errpos |-> "none", special |-> s] : s \in {"nonfunc", "nil", "S1", "S2", "S3", "S4", "S5", "S6"} }
 
 Lower(n) == CASE n = "Alpha" -> "alpha" [] n = "BETA" -> "beta" [] n = "Ren" -> "ren" [] OTHER -> n
 FieldValue(f) ==
-  [name |-> CASE f.tag = "none" -> Lower(f.fname) [] f.tag \in {"ren", "rensub"} -> "ren" [] OTHER -> "",      \* typeOnly, typeOnlysub, subeq
+  [name |-> CASE f.tag = "none" -> Lower(f.fname) [] f.tag \in {"ren", "rensub", "subup"} -> "ren" [] OTHER -> "",      \* typeOnly, typeOnlysub, subeq
    type |-> f.ftype,
-   sub  |-> IF f.tag \in {"rensub", "typeOnlysub"} THEN "s" ELSE IF f.tag = "subeq" THEN "k=v" ELSE ""]
+   sub  |-> CASE f.tag \in {"rensub", "typeOnlysub"} -> "s" [] f.tag = "subeq" -> "k=v" [] f.tag = "subup" -> "Foo" [] OTHER -> ""]
 SideValues(s) == CASE s.kind = "none" -> <<>>
                    [] s.kind = "pos" -> [i \in DOMAIN s.types |-> [name |-> "", type |-> s.types[i], sub |-> ""]]
                    [] OTHER -> [i \in DOMAIN s.fields |-> FieldValue(s.fields[i])]
@@ -48,11 +53,16 @@ V(n, t, s) == [name |-> n, type |-> t, sub |-> s]
 Static(s) == CASE s = "S1" -> [ok |-> TRUE, inp |-> <<V("alpha", "T1", "")>>, out |-> <<>>]                      \* {Struct; Alpha T1; gamma T2}
                [] s = "S2" -> [ok |-> TRUE, inp |-> <<V("", "T2", "s")>>, out |-> <<V("alpha", "T1", "")>>]        \* in {Struct; hidden T1; Beta T2 `,typeOnly,subtype=s`} out *{Struct; Alpha T1; x int}
                [] s = "S3" -> [ok |-> TRUE, inp |-> <<V("ren", "T1", "s"), V("beta", "T2", "")>>, out |-> <<>>]     \* *{Struct; Alpha T1 `Ren,subtype=s`; skipped T1; BETA T2}
-               [] OTHER   -> [ok |-> TRUE, inp |-> <<V("t1", "T1", ""), V("beta", "T2", "")>>, out |-> <<>>]       \* {Struct; T1 (embedded, exported); Beta T2}
+               [] s = "S4" -> [ok |-> TRUE, inp |-> <<V("t1", "T1", ""), V("beta", "T2", "")>>, out |-> <<>>]       \* {Struct; T1 (embedded, exported); Beta T2}
+               [] s = "S5" -> [ok |-> TRUE, inp |-> <<V("", "SP", "")>>, out |-> <<>>]                              \* func(SP) with type SP *SP: an ordinary (pointer) type
+               [] OTHER   -> [ok |-> TRUE, inp |-> <<V("", "SQ", ""), V("", "T1", "")>>, out |-> <<V("", "SR", "")>>]  \* func(SQ, T1) SR with type SQ *SR; type SR *SQ
 
 Expected(d) ==
-  CASE d.special \in {"nonfunc", "nil", "mixedin", "mixedout"} -> [ok |-> FALSE, inp |-> <<>>, out |-> <<>>]
-    [] d.special \in {"S1", "S2", "S3", "S4"} -> Static(d.special)
+  CASE d.special \in {"nonfunc", "nil", "mixedin", "mixedout", "mixedin2", "mixedout2"} -> [ok |-> FALSE, inp |-> <<>>, out |-> <<>>]
+    [] d.special \in {"S1", "S2", "S3", "S4", "S5", "S6"} -> Static(d.special)
+    [] d.special = "variadic" ->
+         LET vs == SideValues(d.inp) n == Len(vs) IN
+         [ok |-> TRUE, inp |-> [i \in 1..n |-> IF i = n THEN [vs[i] EXCEPT !.type = "[]" \o @] ELSE vs[i]], out |-> SideValues(d.out)]
     [] ~SideOK(d.inp) \/ ~SideOK(d.out) -> [ok |-> FALSE, inp |-> <<>>, out |-> <<>>]
     [] OTHER -> [ok |-> TRUE, inp |-> SideValues(d.inp),
                  out |-> IF d.errpos = "middle" THEN WithMiddleErr(SideValues(d.out)) ELSE SideValues(d.out)]
